@@ -38,7 +38,8 @@ BlkAtoms == { [id |-> "B", doms |-> <<1, 2>>, rans |-> <<1, 2>>, duas |-> <<1, 2
               [id |-> "C", doms |-> <<1, 2>>, rans |-> <<1, 2>>, duas |-> <<1, 2>>],      \* [[I11, -], [-, V22]]
               [id |-> "R", doms |-> <<2, 1>>, rans |-> <<1, 2>>, duas |-> <<1, 2>>],      \* [[T21, V11], [V22, K12]]
               [id |-> "D", doms |-> <<3>>, rans |-> <<3>>, duas |-> <<3>>],               \* [[V33]]
-              [id |-> "E", doms |-> <<1>>, rans |-> <<2>>, duas |-> <<1>>] }              \* [[X12]]
+              [id |-> "E", doms |-> <<1>>, rans |-> <<2>>, duas |-> <<1>>],               \* [[X12]]
+              [id |-> "F", doms |-> <<1, 2>>, rans |-> <<2, 2>>, duas |-> <<1, 2>>] }     \* [[X12, -], [-, V22]]: first block row has range dofs # dual dofs, so slicing by the wrong count shifts row 2
 GflAtoms == { [id |-> "fl12", sps |-> <<1, 2>>], [id |-> "fl21", sps |-> <<2, 1>>], [id |-> "fl3", sps |-> <<3>>], [id |-> "fl1", sps |-> <<1>>] }
 
 Atom(kind, a) == [k |-> "atom", kind |-> kind, id |-> a.id]
